@@ -65,3 +65,10 @@ Qed.
 
 Lemma storage_name_fresh existing uid n : storage_name existing uid = Some n -> ~ In n existing.
 Proof. unfold storage_name. apply find_free_fresh. Qed.
+
+Lemma storage_no_clobber (existing : list bytes) (uid : bytes) :
+  exists n, storage_name existing uid = Some n /\ ~ In n existing.
+Proof.
+  destruct (storage_name_total existing uid) as [n Hn].
+  exists n. split; [exact Hn|exact (storage_name_fresh existing uid n Hn)].
+Qed.
